@@ -46,18 +46,19 @@ Definition ver_next (a : N) : N :=
 
 (* ---------------------------------------------------------------- Versioned<T> *)
 
+Notation entry T := (N * option T)%type.
+
 Section Cell.
 Context {T : Type}.
-Definition entry : Type := N * option T.
 
-Definition v_get (d : list entry) (v : N) : option T :=
+Definition v_get (d : list (entry T)) (v : N) : option T :=
   match find (fun it => ver_op get_cmp_op (fst it) v)
              (if get_scans_newest_first then d else rev d) with
   | Some it => snd it
   | None => None
   end.
 
-Definition v_update (d : list entry) (v : N) (x : T) : list entry :=
+Definition v_update (d : list (entry T)) (v : N) (x : T) : list (entry T) :=
   match d with
   | (lv, lx) :: rest =>
       if ver_op update_same_cmp_op lv v then (lv, Some x) :: rest
@@ -65,7 +66,7 @@ Definition v_update (d : list entry) (v : N) (x : T) : list entry :=
   | [] => [(v, Some x)]
   end.
 
-Definition v_rollback (d : list entry) (v : N) : list entry :=
+Definition v_rollback (d : list (entry T)) (v : N) : list (entry T) :=
   match d with
   | (lv, lx) :: rest => if ver_op rollback_cmp_op lv v then rest else d
   | [] => []
@@ -73,7 +74,7 @@ Definition v_rollback (d : list entry) (v : N) : list entry :=
 
 Definition is_marker (x : option T) : bool := match x with None => true | Some _ => false end.
 
-Definition v_remove (d : list entry) (v : N) : list entry :=
+Definition v_remove (d : list (entry T)) (v : N) : list (entry T) :=
   match d with
   | (lv, lx) :: rest =>
       if Bool.eqb (is_marker lx) remove_noop_when_last_is_marker then d
@@ -91,14 +92,14 @@ Arguments CUpd {T} v x.
 Arguments CRem {T} v.
 Arguments CRb {T} v.
 
-Definition c_apply {T} (d : list (@entry T)) (o : cop T) : list (@entry T) :=
+Definition c_apply {T} (d : list (entry T)) (o : cop T) : list (entry T) :=
   match o with
   | CUpd v x => v_update d v x
   | CRem v => v_remove d v
   | CRb v => v_rollback d v
   end.
 
-Definition c_run {T} (d : list (@entry T)) (os : list (cop T)) : list (@entry T) :=
+Definition c_run {T} (d : list (entry T)) (os : list (cop T)) : list (entry T) :=
   fold_left c_apply os d.
 
 (* ---------------------------------------------------------------- association lists *)
@@ -121,17 +122,17 @@ Definition al_map {A} (f : A -> A) (l : list (N * A)) : list (N * A) :=
 
 (* ---------------------------------------------------------------- NodeRrsets *)
 
-Definition rrsets : Type := list (N * list (@entry N)).
+Definition rrsets : Type := list (N * list (entry N)).
 
-Definition cell (t : N) (rs : rrsets) : list (@entry N) :=
+Definition cell (t : N) (rs : rrsets) : list (entry N) :=
   match al_get t rs with Some d => d | None => [] end.
 
 Definition rs_get (rs : rrsets) (t v : N) : option N := v_get (cell t rs) v.
 
-Definition rs_at (t : N) (f : list (@entry N) -> list (@entry N)) (rs : rrsets) : rrsets :=
+Definition rs_at (t : N) (f : list (entry N) -> list (entry N)) (rs : rrsets) : rrsets :=
   al_upd t f [] rs.
 
-Definition rs_all (f : list (@entry N) -> list (@entry N)) (rs : rrsets) : rrsets := al_map f rs.
+Definition rs_all (f : list (entry N) -> list (entry N)) (rs : rrsets) : rrsets := al_map f rs.
 
 Definition rs_remove_rtype (rs : rrsets) (t v : N) : rrsets := rs_at t (fun d => v_remove d v) rs.
 
@@ -151,7 +152,7 @@ Inductive special := SCname (id : N) | SNx.
 
 Record znode := mknode {
   n_rrsets : rrsets;
-  n_special : list (@entry (option special))
+  n_special : list (entry (option special))
 }.
 
 Definition empty_node : znode := mknode [] [].
@@ -390,7 +391,7 @@ Fixpoint trace (s : zstate) (rd : list (N * N)) (evs : list event) : list obs :=
 
 (* entry points for the correspondence driver *)
 Definition c09_cell (os : list (cop N)) (probes : list N) : list (list (N * option N) * list (option N)) :=
-  (fix go (d : list (@entry N)) (os : list (cop N)) :=
+  (fix go (d : list (entry N)) (os : list (cop N)) :=
      match os with
      | [] => []
      | o :: tl => let d' := c_apply d o in (d', map (v_get d') probes) :: go d' tl
